@@ -9,6 +9,7 @@ import (
 	"reflect"
 	"strings"
 	"sync"
+	"time"
 
 	"github.com/cosmos72/gomacro/imports"
 
@@ -170,6 +171,53 @@ func Exit(tok int) {
 	c.S.Exit(uintptr(tok), nil)
 }
 
+// GoCall runs f on a new goroutine started by compiled code (a "foreign" goroutine for the
+// interpreter when f is an interpreted closure). Under the simulator it is a registered task.
+//
+//go:norace
+func GoCall(f func()) {
+	c := Cur
+	if c.S == nil {
+		go f()
+		return
+	}
+	c.S.Go(f)
+}
+
+// Par calls f(i) for i in [0,n) from n foreign goroutines and waits for all of them.
+func Par(n int, f func(int)) {
+	var wg sync.WaitGroup
+	for i := 0; i < n; i++ {
+		i := i
+		wg.Add(1)
+		GoCall(func() {
+			f(i)
+			wg.Done()
+		})
+	}
+	wg.Wait()
+}
+
+// SprintStringer / SprintError format a value that compiled code holds as fmt.Stringer / error
+// (the route "interpreted type used through a compiled interface by compiled code").
+func SprintStringer(s fmt.Stringer) string {
+	return fmt.Sprint(s) + "|" + fmt.Sprintf("%v/%s/%6v", s, s, s)
+}
+
+func SprintError(e error) string {
+	return fmt.Sprint(e) + "|" + fmt.Sprintf("%v/%s", e, e) + "|" + e.Error()
+}
+
+// AfterFunc is time.AfterFunc called by compiled code with an (interpreted) callback; the
+// callback runs on a goroutine created by the runtime's timer machinery.
+func AfterFunc(d time.Duration, f func()) {
+	time.AfterFunc(d, func() {
+		sim.ForeignStart()
+		defer sim.ForeignExit()
+		f()
+	})
+}
+
 // Lock acquires mu without ever blocking on it (sync.Mutex is not durably blocking
 // under synctest): TryLock, else yield as "waiting for lock" and retry.
 //
@@ -177,7 +225,7 @@ func Exit(tok int) {
 func Lock(mu *sync.Mutex) {
 	for !mu.TryLock() {
 		if s := Cur.S; s != nil {
-			s.Yield(sim.SiteLock, true)
+			s.LockWait(mu)
 		}
 	}
 }
@@ -197,17 +245,22 @@ func init() {
 	imports.Packages["verif/hook"] = imports.Package{
 		Name: "hook",
 		Binds: map[string]reflect.Value{
-			"Choose": reflect.ValueOf(Choose),
-			"Ev":     reflect.ValueOf(Ev),
-			"Y":      reflect.ValueOf(Y),
-			"Pre":    reflect.ValueOf(Pre),
-			"Post":   reflect.ValueOf(Post),
-			"Spawn":  reflect.ValueOf(Spawn),
-			"Start":  reflect.ValueOf(Start),
-			"Exit":   reflect.ValueOf(Exit),
-			"Lock":   reflect.ValueOf(Lock),
-			"Unlock": reflect.ValueOf(Unlock),
-			"Fault":  reflect.ValueOf(Fault),
+			"Choose":         reflect.ValueOf(Choose),
+			"Ev":             reflect.ValueOf(Ev),
+			"Y":              reflect.ValueOf(Y),
+			"Pre":            reflect.ValueOf(Pre),
+			"Post":           reflect.ValueOf(Post),
+			"Spawn":          reflect.ValueOf(Spawn),
+			"Start":          reflect.ValueOf(Start),
+			"Exit":           reflect.ValueOf(Exit),
+			"GoCall":         reflect.ValueOf(GoCall),
+			"Par":            reflect.ValueOf(Par),
+			"SprintStringer": reflect.ValueOf(SprintStringer),
+			"SprintError":    reflect.ValueOf(SprintError),
+			"AfterFunc":      reflect.ValueOf(AfterFunc),
+			"Lock":           reflect.ValueOf(Lock),
+			"Unlock":         reflect.ValueOf(Unlock),
+			"Fault":          reflect.ValueOf(Fault),
 		},
 	}
 }
